@@ -518,6 +518,10 @@ func genRigCase(r *rng.R) rigIn {
 				add(build("body-malformed", vals{"body": `{"name":`}, "", nil))
 				add(build("body-trailing-data", vals{"body": rng.Pick(r, []string{`{"name":"x","count":1} trailing`, `{"name":"x","count":1}{"name":"y","count":2}`, `{"name":"x","count":1}]`})}, "", nil))
 			}
+			if bodyKind == "json" {
+				// a body of blanks only is a body, and no JSON value
+				add(build("body-blank", vals{"body": rng.Pick(r, []string{"\n", "  \r\n", " "})}, "", nil))
+			}
 			// the same path under a verb nobody annotated: not served, and above all the controller method must not run
 			ov := build("other-verb", nil, "", nil)
 			ov.Method, ov.Body, ov.Form = "OPTIONS", "", nil
